@@ -801,6 +801,7 @@ def check_document_(ctx: Ctx, recipe, stream, r, specs_pool, unit_of_spec, reque
     named = [sp for sp in specs_pool if sp[0] in ("name", "func")]
     specs = [["name", "minimal"], r.choice(named)] + r.sample(specs_pool, n_specs - 2)
     feats = {id(t): subtree_features(t) for t in recvs}
+    rp_doc = [0]
 
     # event stream correspondence (formatter independent)
     ev_queries, ev_real = [], []
@@ -920,6 +921,10 @@ def check_document_(ctx: Ctx, recipe, stream, r, specs_pool, unit_of_spec, reque
                                 report(ctx, "pretty and plain output differ in non-whitespace characters", case=case,
                                               expected=dropws(plain), observed=dropws(real), stream=stream)
                             ctx.count("oracle:nonws")
+                        if call == ["prettify"] and unit_ws and plain is not None and rp_doc[0] < RP_PER_DOC and not (
+                                isinstance(recv, BS) and recv.is_xml):
+                            rp_doc[0] += 1
+                            _RP.append((real, plain, case, plain_html, pc.inert, stream))
                         if call == ["prettify"] and unit_ws and plain is not None and pc.inert:
                             ok, a, b = reparse_equal(real, plain, plain_html)
                             ctx.count("oracle:reparse" + (":exact-pre" if plain_html else ""))
@@ -1278,6 +1283,124 @@ def token_safe(recv):
     return True
 
 
+# --------------------------------------------------------------------------------------
+# the re-parse clause through the tokenizer MODEL (Props/C14 section 11)
+# --------------------------------------------------------------------------------------
+_RP = []            # (prettify() text, decode() text, case, plain_html, inert, stream) collected by check_document_
+RP_PER_DOC = 3
+SPECIAL_CLS = (1, 2, 3, 4, 5)   # Comment, CData, ProcessingInstruction, Declaration, Doctype as c03.cls_id numbers them
+
+
+def plain_shape(el):
+    """a real tree without start infos, as driver op `reparse` prints `eraseWsL`'s result: `<name>[...]`, text `"cls:cps"`"""
+    from . import c03
+    from .common import cps
+    out = []
+    for c in el.contents:
+        if isinstance(c, E()["Tag"]):
+            out.append(f"<{cps(c.name) or '-'}>[{plain_shape(c)}]")
+        else:
+            out.append(f"\"{c03.cls_id(c)}:{cps(str.__str__(c)) or '-'}\"")
+    return "".join(out)
+
+
+def erased_shape(el, pres):
+    """independent Python version of the normalisation the property names (Lean `eraseWsL`): character data outside
+    whitespace-preserving elements loses its whitespace (str.isspace) and disappears when empty; comments, CDATA, PIs,
+    declarations, doctypes and everything below a whitespace-preserving element stay as they are"""
+    from . import c03
+    from .common import cps
+    out = []
+    for c in el.contents:
+        if isinstance(c, E()["Tag"]):
+            inner = plain_shape(c) if c.name in pres else erased_shape(c, pres)
+            out.append(f"<{cps(c.name) or '-'}>[{inner}]")
+        else:
+            cid = c03.cls_id(c)
+            t = str.__str__(c)
+            if cid not in SPECIAL_CLS:
+                t = "".join(ch for ch in t if not ch.isspace())
+                if t == "":
+                    continue
+            out.append(f"\"{cid}:{cps(t) or '-'}\"")
+    return "".join(out)
+
+
+def reparse_model_stream(ctx: Ctx, drv, limit):
+    """real prettify()/decode() text -> (a) the real parser, (b) the Lean tokenizer model + bs4 handler model + construction machine
+    (driver op `c14 reparse`): same tree incl. attributes and positions, for both texts; the model's `eraseWsL` = the Python
+    erasure of the real tree; and (direct oracle, where the text pieces are inert and the tree is plain HTML) the two erased real
+    trees are equal -- the conclusion of `prettify_reparse_tokenized`, on every generated document, inside and outside its class."""
+    from . import c04, tk
+    from .common import cps
+    name = "reparse-model"
+    pairs = _RP[:limit]
+    ctx.count(f"{name}:collected", len(_RP))
+    del _RP[:]
+    if not pairs:
+        return
+    texts = []
+    for pretty, plain, *_ in pairs:
+        texts.extend([pretty, plain])
+    uniq = sorted(set(texts))
+    needs = drv.ask([f"tk needs {cps(t) or '-'}" for t in uniq])
+    cfg = c04.cfg_tokens({})
+    reps = drv.ask([f"c14 reparse {cfg} {tk._tab(n)} {cps(t) or '-'}" for t, n in zip(uniq, needs)])
+    model = dict(zip(uniq, reps))
+    real = {}
+    for t in uniq:
+        try:
+            soup = c04.real_parse(t, {})
+            real[t] = ("ok", c04.shape(soup), erased_shape(soup, PROP_HTML_PRESERVE))
+        except Exception as ex:  # noqa: BLE001
+            real[t] = ("error", type(ex).__name__, "")
+    for pretty, plain, case, plain_html, inert, stream in pairs:
+        ctx.count(f"{name}:pairs")
+        ctx.count(f"{name}:from:{stream}")
+        bad = False
+        for which, t in (("prettify()", pretty), ("decode()", plain)):
+            m = model[t].split("|", 1)
+            flag = m[0]
+            mtree, _, merased = (m[1] if len(m) > 1 else "").rpartition("|")
+            # the tree part contains '|' itself (start infos); the erased part does not
+            st, rtree, rerased = real[t]
+            ctx.count(f"{name}:texts")
+            ctx.count(f"{name}:flag:{flag}")
+            if st == "error" or flag != "ok":
+                if not (st == "error" and flag == "error"):
+                    bad = True
+                    ctx.corr_disagreements += 1
+                    report(ctx, "tokenizer+builder model and the real parser disagree on whether the output parses", case=case | {"text_of": which},
+                           observed=f"{st}:{rtree}"[:300], model=model[t][:300], stream=name, no_failing_input=True)
+                continue
+            if mtree != rtree:
+                bad = True
+                ctx.corr_disagreements += 1
+                report(ctx, "tokenizer+builder model and the real parser build different trees from " + which + " output",
+                       case=case | {"text": t[:2000]}, observed=rtree[:2000], model=mtree[:2000], stream=name, no_failing_input=True)
+            elif merased != rerased:
+                bad = True
+                ctx.corr_disagreements += 1
+                report(ctx, "Lean eraseWsL and the Python erasure disagree on the tree of " + which + " output",
+                       case=case | {"text": t[:2000]}, observed=rerased[:2000], model=merased[:2000], stream=name, no_failing_input=True)
+        a, b = real[pretty], real[plain]
+        nontriv = None
+        if a[0] == "ok" and b[0] == "ok":
+            if inert and plain_html:
+                ctx.count(f"{name}:erased-trees-compared")
+                if a[2] != b[2]:
+                    report(ctx, "re-parse of prettify() output differs from re-parse of decode() output after erasing whitespace in "
+                                "character data outside pre/textarea (trees of the real parser; the tokenizer model agrees with it)"
+                           if not bad else "re-parse of prettify() output differs from re-parse of decode() output after erasing "
+                                           "whitespace in character data outside pre/textarea",
+                           case=case, expected=b[2][:2000], observed=a[2][:2000], stream=name)
+                if "<" in a[2] and pretty != plain:
+                    nontriv = ("RP", hash((pretty, plain)))
+            else:
+                ctx.count(f"{name}:not-compared:" + ("not-inert" if not inert else "not-plain-html"))
+        ctx.case(nontriv)
+
+
 def gen_recipe(r, stream):
     if stream == "html":
         return {"kind": "html", "markup": gen_html(r), "builder": r.choice(["default"] * 6 + ["custom", "nopre", "custom-list", "custom-frozen"]), "edits": []}
@@ -1426,6 +1549,8 @@ def run(ctx: Ctx):
             r = ctx.rng(stream, i)
             recipe = gen_recipe(r, stream)
             check_document(ctx, recipe, stream, r, specs_pool, unit_of_spec, requests, max_recv, n_specs)
+    # ---- the re-parse clause through the tokenizer model ----
+    reparse_model_stream(ctx, drv, ctx.n(4000, 40000))
     # ---- the Lean model ----
     lines = []
     for q in requests:
